@@ -1,9 +1,12 @@
 """Fresh process-state reference (C07 and friends): a pristine template process that has only
 imported formulae forks one child per request; the child runs the operation once, returns the
-projected outcome through a pipe and exits.  The template itself never runs formulae code."""
+projected outcome through a pipe and exits.  The template is a newly started interpreter (not a
+fork of the harness process, whose formulae module may already carry state) and never runs
+formulae code itself."""
 import os
 import pickle
 import struct
+import subprocess
 import sys
 
 
@@ -42,17 +45,13 @@ class FreshServer:
     def start(self):
         req_r, req_w = os.pipe()
         res_r, res_w = os.pipe()
-        pid = os.fork()
-        if pid == 0:
-            os.close(req_w)
-            os.close(res_r)
-            try:
-                self._template(req_r, res_w)
-            finally:
-                os._exit(0)
+        root = os.path.dirname(os.path.dirname(os.path.abspath(__file__)))
+        env = dict(os.environ, PYTHONPATH=root + os.pathsep + os.environ.get("PYTHONPATH", ""))
+        code = "from fv import common, fresh; common.use_repo(); fresh.FreshServer._template(%d, %d)" % (req_r, res_w)
+        self.proc = subprocess.Popen([sys.executable, "-c", code], pass_fds=(req_r, res_w), env=env, stdin=subprocess.DEVNULL)
         os.close(req_r)
         os.close(res_w)
-        self.pid, self.req_w, self.res_r = pid, req_w, res_r
+        self.pid, self.req_w, self.res_r = self.proc.pid, req_w, res_r
 
     @staticmethod
     def _template(req_r, res_w):
@@ -101,5 +100,5 @@ class FreshServer:
         if self.pid is not None:
             os.close(self.req_w)
             os.close(self.res_r)
-            os.waitpid(self.pid, 0)
+            self.proc.wait()
             self.pid = None
